@@ -347,7 +347,7 @@ func init() {
 		Shards: shards(8, 16),
 		Meta: func(tier string) rt.Meta {
 			return rt.Meta{Level: "exploration", MinEvals: 2000, MinDistinct: 20,
-				Rule:        "bases MemFS/OrefaFS with a base directory B (/BASE, /BASE/sub, /x/BASE, or /x/[ab] - a name made of pattern metacharacters, beside /x/a and /x/b holding the workload's names -, given to the constructor clean, with a trailing separator, unclean or relative) holding a random tree, canary files and directories outside B (among them a sibling directory whose name extends B's as a string and holds the workload's names; the current directory of the base is moved there and elsewhere outside B from the base side); histories of 100 calls (all path-taking calls incl. Glob patterns made from paths of the tree and WalkDir, and File methods; absolute, relative, unclean paths; one call in four gets an adversarial operand: '..'-chains, B's own prefix, canary names) plus Sub through the wrapper with hostile directories and probes through the returned view) issued in lockstep on BasePathFS(base,B) and on a standalone file system holding B's content. Monitors: snapshot (incl. mtimes) of everything outside B before/after every call; canary/base-path search in every returned value and error text; outcome, content of B and cwd equal to the standalone reference. Signature = base fs | call kind | outcome; all non-trivial.",
+				Rule:        "bases MemFS/OrefaFS with a base directory B (/BASE, /BASE/sub, /x/BASE, or /x/[ab] - a name made of pattern metacharacters, beside /x/a and /x/b holding the workload's names -, given to the constructor clean, with a trailing separator, unclean or relative) holding a random tree, canary files and directories outside B (among them a sibling directory whose name extends B's as a string and holds the workload's names; the current directory of the base is moved there and elsewhere outside B from the base side); histories of 100 calls (all path-taking calls incl. Glob patterns made from paths of the tree and WalkDir, and File methods; absolute, relative, unclean paths; one call in four gets an adversarial operand: '..'-chains, B's own prefix, canary names) plus Sub through the wrapper with hostile directories and probes through the returned view) issued in lockstep on BasePathFS(base,B) and on a standalone file system holding B's content. In one MemFS history in five the wrapper is told through SetFeatures that it has symbolic links, and links with targets outside B are asked for and used through it. Monitors: snapshot (incl. mtimes) of everything outside B before/after every call; canary/base-path search in every returned value and error text; outcome, content of B and cwd equal to the standalone reference. Signature = base fs | call kind | outcome; all non-trivial.",
 				Assumptions: []string{"B's content is symlink-free (BasePathFS removes FeatSymlink)", "File.Name and Abs are checked for leaks only", "the root as operand of Remove/RemoveAll/Rename is left to C07"}}
 		},
 		Run: func(c *rt.Ctx) {
